@@ -4,9 +4,13 @@
    order of effects.  No proofs here.
 
    External things are inputs:
-   * the MD engines: [streams] — the k-th call of propagate (in call order, whichever
-     engine object is used) returns the frames of the k-th list, the first element being
-     the frame the engine emits for the initial phase point; the stop rule applied to the
+   * the MD engines: [streams] — the k-th call of propagate (in call order) returns the
+     frames of the k-th list, the first element being the frame the engine emits for the
+     initial phase point; WHICH engine object the k-th call is made on (engine0 =
+     engines[-1][0] of [0-], engine1 = engines[0][0] of [0+]) is part of the model's answer
+     ([c_eng] of the k-th [call]) and is compared with the implementation; section
+     [Reversible2] below instantiates the streams with two different dynamics accordingly;
+     the stop rule applied to the
      list is MovesM.propagate_fixed (= EngineBase.add_to_path as it is now, with
      "if path.length == path.maxlen and not success": a frame that crosses an interface is a
      success also when it is the maxlen-th frame);
@@ -52,7 +56,13 @@ Record spath := mkSP { sp_path : path; sp_status : status; sp_weight : Z }.
 
 Inductive dlabel := DSecond | DSecondLast.
 
+(* the engine object a propagate call is made on: engines[-1][0] (the [0-] engine, engine0 in
+   the code) or engines[0][0] (the [0+] engine, engine1).  With one [engine] section they are
+   the same object; with simulation.ensemble_engines they are different dynamics. *)
+Inductive eng := E0 | E1.
+
 Record call := mkCall {
+  c_eng : eng;         (* the engine object whose propagate was called *)
   c_init : frame;      (* the phase point handed to propagate *)
   c_rev : bool;        (* reverse= *)
   c_left : Z; c_right : Z; c_maxlen : nat;
@@ -96,14 +106,14 @@ Definition last_frame (p : path) : option frame := nth_error (rev (pts p)) 0.   
 Definition last2_frame (p : path) : option frame := nth_error (rev (pts p)) 1.     (* [-2] *)
 
 (* engine.propagate(path, ens_set, system, reverse): next stream, current stop rule *)
-Definition engine_call (p : path) (streams : list (list frame)) (init : frame) (rv : bool)
+Definition engine_call (who : eng) (p : path) (streams : list (list frame)) (init : frame) (rv : bool)
            (l r : Z) : res (path * list (list frame) * call) :=
   match streams with
   | [] => Err EExhausted
   | [] :: _ => Err EExhausted
   | (f :: tl) :: rest =>
       match MovesM.propagate_fixed p f tl l r with
-      | PR p' _ n => Ok (p', rest, mkCall init rv l r (maxlen p) n)
+      | PR p' _ n => Ok (p', rest, mkCall who init rv l r (maxlen p) n)
       | PRExhausted _ => Err EExhausted
       | PRError => Err ERaise
       end
@@ -131,7 +141,7 @@ Definition retis_path0 (e0 e1 : ens) (allowed : bool) (old1 : path) (streams : l
     let shpt := copy_frame 0 f10 in
     let tmp := empty_path (maxlen1 - 1) 0 in
     match (if allowed
-           then match engine_call tmp streams shpt true (e_i0 e0) (e_i2 e0) with
+           then match engine_call E0 tmp streams shpt true (e_i0 e0) (e_i2 e0) with
                 | Ok (p, s, c) => Ok (p, s, [c])
                 | Err e => Err e
                 end
@@ -163,7 +173,7 @@ Definition retis_path1 (e0 e1 : ens) (allowed : bool) (old0 : path) (streams : l
   | Some f0l =>
     let system := copy_frame 0 f0l in
     match (if allowed
-           then match engine_call tmp streams system false (e_i0 e1) (e_i2 e1) with
+           then match engine_call E1 tmp streams system false (e_i0 e1) (e_i2 e1) with
                 | Err e => Err e
                 | Ok (path_tmp, s, c) =>
                     match last2_frame old0 with
@@ -296,7 +306,7 @@ Definition quantis_complete (e0 e1 : ens) (tmp0 tmp1 : path) (start_cond1_L : bo
     if negb start_cond1_L then
       Out false (mkSP (fst (append new_path0 shooting_point0)) SEmpty 0) (mkSP tmp1 QRS 0) QRS calls nd
     else
-    match engine_call new_path0 streams shooting_point0 true (e_i0 e0) (e_i2 e0) with
+    match engine_call E0 new_path0 streams shooting_point0 true (e_i0 e0) (e_i2 e0) with
     | Err e => OErr e
     | Ok (back0, streams1, c0) =>
       let calls := calls ++ [c0] in
@@ -316,7 +326,7 @@ Definition quantis_complete (e0 e1 : ens) (tmp0 tmp1 : path) (start_cond1_L : bo
         if ford shooting_point1 <? lambda0 then
           Out false (mkSP new_path0 QLR 0) (mkSP (fst (append new_path1 shooting_point1)) QLR 0) QLR calls nd
         else
-        match engine_call new_path1 streams1 shooting_point1 false (e_i0 e1) (e_i2 e1) with
+        match engine_call E1 new_path1 streams1 shooting_point1 false (e_i0 e1) (e_i2 e1) with
         | Err e => OErr e
         | Ok (forw1, _, c1) =>
           let calls := calls ++ [c1] in
@@ -358,14 +368,14 @@ Definition quantis_swap_zero (e0 e1 : ens) (beta0 beta1 : Q) (old0 old1 : spath)
     if negb start_cond0_L || negb start_cond1_L then with_sp QLL
     else
     (* one step in [0-] *)
-    match engine_call tmp_path0 streams shooting_point0 false (e_i0 e0) (e_i2 e0) with
+    match engine_call E0 tmp_path0 streams shooting_point0 false (e_i0 e0) (e_i2 e0) with
     | Err e => OErr e
     | Ok (tmp0, streams1, c0) =>
       if negb (end_is_R1 tmp0 lambda0) then
         Out false (mkSP tmp0 QS0 0) (mkSP (fst (append tmp_path1 shooting_point1)) QS0 0) QS0 [c0] 0
       else
       (* one step in [0+]  (sic: propagated with ens_set0) *)
-      match engine_call tmp_path1 streams1 shooting_point1 false (e_i0 e0) (e_i2 e0) with
+      match engine_call E1 tmp_path1 streams1 shooting_point1 false (e_i0 e0) (e_i2 e0) with
       | Err e => OErr e
       | Ok (tmp1, streams2, c1) =>
         if negb (end_is_R1 tmp1 lambda0) then
@@ -444,3 +454,39 @@ Definition det_retis (n : nat) (e0 e1 : ens) (old0 old1 : spath) : outcome :=
   end.
 
 End Reversible.
+
+(* ------------------------------------------------------------------ two different engines *)
+(* [0-] and [0+] driven by DIFFERENT deterministic time-reversible dynamics over one phase
+   space (simulation.ensemble_engines without quantis): engine0 = (T0, R0) is the engine of
+   [0-], engine1 = (T1, R1) the engine of [0+].  Configurations (X, enc, dec) and the order
+   parameter are shared: a config file written by one engine is read by the other. *)
+Section Reversible2.
+Variable X : Type.
+Variable T0 R0 T1 R1 : X -> X.
+Variable ord : X -> Z.
+Variable enc : X -> Z.
+Variable dec : Z -> X.
+
+Definition T_of (w : eng) : X -> X := match w with E0 => T0 | E1 => T1 end.
+Definition R_of (w : eng) : X -> X := match w with E0 => R0 | E1 => R1 end.
+
+(* what engine object w answers to propagate(init, reverse), up to n frames *)
+Definition eng_stream (w : eng) (n : nat) (f : frame) (reverse : bool) : list frame :=
+  det_stream X (T_of w) (R_of w) ord enc dec n f reverse.
+
+(* retis_swap_zero with the backward run answered by engine0 and the forward run by engine1 *)
+Definition det_retis2 (n : nat) (e0 e1 : ens) (old0 old1 : spath) : outcome :=
+  match first_frame (sp_path old1), last_frame (sp_path old0) with
+  | Some f10, Some f0l =>
+      retis_swap_zero (fun _ t => t) e0 e1 old0 old1
+        [eng_stream E0 n (copy_frame 0 f10) true; eng_stream E1 n (copy_frame 0 f0l) false] []
+  | _, _ => OErr ERaise
+  end.
+
+(* every stream is the answer of the engine object the model says the call was made on, for
+   the phase point and direction the model says it was given *)
+Definition streams_of_engines (n : nat) (streams : list (list frame)) (calls : list call) : Prop :=
+  forall k c s, nth_error calls k = Some c -> nth_error streams k = Some s ->
+                s = eng_stream (c_eng c) n (c_init c) (c_rev c).
+
+End Reversible2.
